@@ -165,6 +165,9 @@ def _run_shard(binary, lines, timeout):
     out = p.stdout.decode("utf-8", "replace").split("\n")
     if out and out[-1] == "":
         out.pop()
+    if binary == HARNESS_BIN:
+        # protocol lines of the harness start with 0x01; anything else is library chatter on stdout
+        out = [l[1:] for l in out if l.startswith("\x01")]
     if p.returncode != 0 or len(out) != len(lines):
         return out, "rc=%d lines=%d/%d stderr=%s" % (p.returncode, len(out), len(lines),
                                                    p.stderr.decode("utf-8", "replace")[-300:])
